@@ -445,6 +445,59 @@ class Poly(dict):
         return s + (f" + ...({len(a)} terms)" if len(a) > limit else '')
 
 
+def _lead(p):
+    """leading monomial w.r.t. a fixed total order (lexicographic on the sorted (var, exp) tuples)"""
+    return max(p.keys())
+
+
+def poly_divide_exact(a, b, max_steps=4000):
+    """q with a == q*b, or None if b does not divide a exactly (or the attempt exceeds max_steps)"""
+    if not b:
+        return None
+    if not a:
+        return Poly()
+    c = b.as_const()
+    if c is not None:
+        return a.scale(1 / c)
+    # graded-lex style division using a monomial order compatible with multiplication: compare exponent vectors
+    vars_ = sorted(a.vars() | b.vars())
+    idx = {v: i for i, v in enumerate(vars_)}
+
+    def key(m):
+        e = [0] * len(vars_)
+        for v, k in m:
+            e[idx[v]] = k
+        return (sum(e), e)
+    lb = max(b.keys(), key=key)
+    cb = b[lb]
+    dlb = dict(lb)
+    q = Poly()
+    r = Poly(a)
+    steps = 0
+    while r:
+        steps += 1
+        if steps > max_steps:
+            return None
+        lr = max(r.keys(), key=key)
+        d = dict(lr)
+        ok = True
+        for v, k in dlb.items():
+            if d.get(v, 0) < k:
+                ok = False
+                break
+            d[v] -= k
+            if d[v] == 0:
+                del d[v]
+        if not ok:
+            return None
+        m = tuple(sorted(d.items()))
+        coef = r[lr] / cb
+        t = Poly({m: coef})
+        q = q + t
+        r = r - t * b
+    return q
+
+
 def to_poly(n, memo=None):
     """normal form of a polynomial DAG (no div by non-constants, no sqrt)."""
     memo = {} if memo is None else memo
@@ -559,8 +612,25 @@ def sqrt_normal(n):
         op = x.op
         a = x.args
         if op == 'sqrt':
-            SQRT_GEN[x.nid] = x
-            r = {(x.nid,): ONE}
+            g = x
+            if not support(a[0]):
+                # ground radicand: evaluate exactly and canonicalise (equal values -> the same generator; perfect squares -> rational)
+                try:
+                    num, D = to_ratfun(a[0])
+                    val = num.as_const()
+                    den = ratfun_den_poly(D).as_const()
+                    if val is not None and den:
+                        val = val / den
+                        if val >= 0:
+                            rn, rd = math.isqrt(val.numerator), math.isqrt(val.denominator)
+                            if rn * rn == val.numerator and rd * rd == val.denominator:
+                                memo[x] = {(): lift(Fraction(rn, rd))} if rn else {}
+                                continue
+                            g = Node('sqrt', lift(val))
+                except NotImplementedError:
+                    pass
+            SQRT_GEN[g.nid] = g
+            r = {(g.nid,): ONE}
         elif op == 'const':
             sq = algebraic_sqrt(a[0])
             if sq is not None:
@@ -707,6 +777,19 @@ def to_ratfun(n, memo=None, max_terms=20000):
             r = (rn, rd)
         else:
             raise NotImplementedError(f'ratfun: {op}')
+        if r[1] and op in ('add', 'sub', 'mul', 'div') and len(r[0]) <= 3000:
+            num, D = r
+            D = dict(D)
+            for k in list(D):
+                while D.get(k, 0) > 0:
+                    qq = poly_divide_exact(num, _FACTORS[k]) if len(_FACTORS[k]) <= 400 else None
+                    if qq is None:
+                        break
+                    num = qq
+                    D[k] -= 1
+                    if D[k] == 0:
+                        del D[k]
+            r = (num, D)
         if len(r[0]) > max_terms:
             raise TooLarge(f'ratfun numerator has {len(r[0])} monomials')
         memo[x] = r
@@ -716,3 +799,53 @@ def to_ratfun(n, memo=None, max_terms=20000):
 
 def ratfun_den_poly(D):
     return _expand(D)
+
+
+# ---------------------------------------------------------------- IEEE-exact simplification (for bit-identity comparisons)
+def ieee_simplify(n, memo=None):
+    """rewrites that do not change the float result for FINITE operands (signed zeros compare equal):
+    1*x -> x, x*1 -> x, 0*x -> 0, x+0 -> x, 0+x -> x, x-0 -> x, x/1 -> x.  Used only to compare float-operation DAGs."""
+    memo = {} if memo is None else memo
+    for x in topo([n]):
+        if x in memo:
+            continue
+        if x.op in ('var', 'const'):
+            memo[x] = x
+            continue
+        a = [memo[q] if isinstance(q, Node) else q for q in x.args]
+        op = x.op
+        r = None
+        if op == 'mul':
+            if a[0] is ONE: r = a[1]
+            elif a[1] is ONE: r = a[0]
+            elif a[0] is ZERO or a[1] is ZERO: r = ZERO
+        elif op == 'add':
+            if a[0] is ZERO: r = a[1]
+            elif a[1] is ZERO: r = a[0]
+        elif op == 'sub':
+            if a[1] is ZERO: r = a[0]
+        elif op == 'div':
+            if a[1] is ONE: r = a[0]
+        elif op == 'neg':
+            if a[0] is ZERO: r = ZERO
+        memo[x] = r if r is not None else Node(op, *a)
+    return memo[n]
+
+
+def take_ite_true(n, conds=None, memo=None):
+    """rewrite every ite(c, x, y) to x, collecting the conditions c (to be asserted as assumptions)"""
+    memo = {} if memo is None else memo
+    conds = [] if conds is None else conds
+    for x in topo([n]):
+        if x in memo:
+            continue
+        if x.op in ('var', 'const'):
+            memo[x] = x
+        elif x.op == 'ite':
+            c = memo[x.args[0]]
+            if c not in conds:
+                conds.append(c)
+            memo[x] = memo[x.args[1]]
+        else:
+            memo[x] = Node(x.op, *[memo[a] if isinstance(a, Node) else a for a in x.args])
+    return memo[n], conds
